@@ -156,3 +156,21 @@ def tld_layout():
         if need not in out:
             raise Inconclusive("ThreadLocalDataLayout lacks field " + need)
     return out
+
+
+def default_max_heap():
+    """default maximal heap size of the runtime (dora-runtime/src/runtime/flags.rs): a single
+    allocation request of at least this many bytes can only end in the out-of-memory trap"""
+    src = open(os.path.join(common.REPO, "dora-runtime/src/runtime/flags.rs")).read()
+    m = re.search(r"fn max_heap_size\(&self\)\s*->\s*usize\s*\{.*?unwrap_or\((\d+)\s*\*\s*([KMG])\)", src, re.S)
+    if not m:
+        raise Inconclusive("cannot read the default max heap size from dora-runtime/src/runtime/flags.rs")
+    return int(m.group(1)) * {"K": 1 << 10, "M": 1 << 20, "G": 1 << 30}[m.group(2)]
+
+
+def compile_all(sources):
+    """[(source path, backend)] -> [Program] compiled concurrently"""
+    from concurrent.futures import ThreadPoolExecutor
+    toolchain()
+    with ThreadPoolExecutor(max_workers=4) as ex:
+        return list(ex.map(lambda sb: Program(sb[0], sb[1]), sources))
